@@ -354,7 +354,11 @@ func (t *tr) expr(e *env, x ast.Expr) string {
 			if x.Op == token.NEQ {
 				neg = "!"
 			}
-			isNil := func(y ast.Expr) bool { id, ok := y.(*ast.Ident); _, local := e.lookup("nil"); return ok && id.Name == "nil" && !local }
+			isNil := func(y ast.Expr) bool {
+				id, ok := y.(*ast.Ident)
+				_, local := e.lookup("nil")
+				return ok && id.Name == "nil" && !local
+			}
 			switch {
 			case isNil(x.Y):
 				return "(" + neg + "goIsNil " + t.arg(e, x.X) + ")"
